@@ -15,7 +15,7 @@ P = T.P
 TRUSTED = [
     "Coq 8.16.1 kernel and its bytecode VM (vm_compute for the 256-entry table, the 80 round constants and the 16x16 coefficient matrix of the SSA program); no native_compute",
     "tools/rs2v.py + tools/gen/gen_tip5.py (tables; generated_function parsed into the SSA language of coq/model/Tip5Ssa.v; the two loop bodies of mds_generated as straight-line functions after a strict shape check of the whole function) and coq/lib/Word.v",
-    "extraction: ExtrOcamlBasic + ExtrOcamlZBigInt (positive, N, Z -> zarith), FMapPositive as extracted, OCaml 4.13.1, zarith 1.12",
+    "extraction: ExtrOcamlBasic + ExtrOcamlZBigInt (positive, N, Z -> zarith) + the directive of coq/extract/ExtractC02.v mapping Z.pow to zarith exponentiation (0 for negative exponents), FMapPositive as extracted, OCaml 4.13.1, zarith 1.12",
     "correspondence harness (harness/src/bin/c02.rs), oracle driver (ocaml/c02.ml), case generator (tools/props/c02.py, tools/props/tip5_py.py)",
     "modelled by hand, tied by the correspondence only: the loops of sbox_layer / mds_generated / round / permutation / trace over the 16 elements, the little-endian byte split of split_and_lookup, Tip5::new, hash_10, hash_pair, Digest::hash",
     "verified through the translator (re-proved on regenerated definitions): LOOKUP_TABLE, ROUND_CONSTANTS, MDS_MATRIX_FIRST_COLUMN, generated_function (as a linear map), the lane recombination, bfe_add / bfe_mul",
